@@ -6,6 +6,14 @@
 //! `CubicBezierSegment::approximate_length`, `Arc::approximate_length`, `Segment::approximate_length`);
 //! ORCL evaluates the identities of the property on lyon's own results against an
 //! independent de Casteljau reference in f64, with a forward-error envelope.
+//!
+//! `QuadraticBezierSegment::length` (clauses `quad.length/*`, see `quad_length_oracle`): finite,
+//! between chord and control polygon, zero for a point, equal to a sampled reference and additive
+//! over `split(t)` — with witness classes computed from the input (`len_class`) for the degenerate
+//! and ill-conditioned shapes that /repo fix 7d678f98 repaired, and a generator stream (`len_kind`,
+//! 1/4 of the `quad` cases) that produces them: point curves, ctrl == to / from, collinear control
+//! points at large coordinates, curves smaller than lyon's EPSILON, curves far from the origin,
+//! nearly closed curves.
 
 use lyon_geom::euclid::{Angle, Transform2D};
 use lyon_geom::{vector, Arc, CubicBezierSegment, LineSegment, Point, QuadraticBezierSegment, Segment, Vector};
@@ -240,16 +248,259 @@ fn seg_case<S: Fl>(ctx: &mut Ctx) {
     });
 }
 
+
+/// lyon's `S::EPSILON` (not the machine epsilon)
+fn lyon_epsilon<S: Fl>() -> f64 {
+    if S::BITS == 32 {
+        1e-4
+    } else {
+        1e-8
+    }
+}
+
+/// Degenerate / ill-conditioned shapes for `QuadraticBezierSegment::length`; rewrites `pts`.
+fn len_kind<S: Fl>(rng: &mut Rng, pts: &mut Vec<Point<S>>) -> &'static str {
+    let f32ish = S::BITS == 32;
+    let pt = |x: f64, y: f64| -> Point<S> { lyon_geom::point(S::of(x), S::of(y)) };
+    // a position: near the origin, moderate, or far away
+    let far = |rng: &mut Rng| -> (f64, f64) {
+        let e = if f32ish { rng.uniform(2.0, 5.0) } else { rng.uniform(4.0, 9.0) };
+        let m = 10f64.powf(e);
+        (m * rng.uniform(-1.0, 1.0), m * rng.uniform(-1.0, 1.0))
+    };
+    match rng.below(8) {
+        0 => {
+            // a point, anywhere
+            let (x, y) = match rng.below(3) {
+                0 => (0.0, 0.0),
+                1 => (rng.uniform(-100.0, 100.0), rng.uniform(-100.0, 100.0)),
+                _ => far(rng),
+            };
+            let q = pt(x, y);
+            for p in pts.iter_mut() {
+                *p = q;
+            }
+            "point trivial"
+        }
+        1 => {
+            // ctrl == to, or ctrl within a hair of to (a + b + c cancels)
+            if rng.chance(1, 2) {
+                pts[1] = pts[2];
+            } else {
+                let h = 10f64.powf(rng.uniform(-7.0, -3.0));
+                pts[1] = pt(
+                    pts[2].x.f() + (pts[0].x.f() - pts[2].x.f()) * h + rng.uniform(-1.0, 1.0) * h,
+                    pts[2].y.f() + (pts[0].y.f() - pts[2].y.f()) * h + rng.uniform(-1.0, 1.0) * h,
+                );
+            }
+            "ctrl-to"
+        }
+        2 => {
+            // ctrl == from (c == 0), or within a hair of it
+            if rng.chance(1, 2) {
+                pts[1] = pts[0];
+            } else {
+                let h = 10f64.powf(rng.uniform(-7.0, -3.0));
+                pts[1] = pt(pts[0].x.f() + rng.uniform(-1.0, 1.0) * h, pts[0].y.f() + rng.uniform(-1.0, 1.0) * h);
+            }
+            "ctrl-from"
+        }
+        3 => {
+            // collinear control points at large coordinates (collinear up to the rounding of the coordinates)
+            let (x, y) = far(rng);
+            let a = rng.uniform(0.0, std::f64::consts::TAU);
+            let l = 10f64.powf(rng.uniform(0.0, 2.0));
+            let (dx, dy) = (a.cos() * l, a.sin() * l);
+            let s0 = rng.uniform(-4.0, 4.0);
+            let s1 = rng.uniform(-4.0, 4.0);
+            let s2 = rng.uniform(-4.0, 4.0);
+            pts[0] = pt(x + dx * s0, y + dy * s0);
+            pts[1] = pt(x + dx * s1, y + dy * s1);
+            pts[2] = pt(x + dx * s2, y + dy * s2);
+            "collinear-large"
+        }
+        4 => {
+            // a generic shape smaller than lyon's EPSILON
+            let e = if f32ish { rng.uniform(-9.0, -4.5) } else { rng.uniform(-14.0, -8.5) };
+            let k = 10f64.powf(e);
+            for p in pts.iter_mut() {
+                *p = pt(rng.uniform(-1.0, 1.0) * k, rng.uniform(-1.0, 1.0) * k);
+            }
+            "tiny"
+        }
+        5 | 6 => {
+            // a small curve far from the origin: nearly straight (quadrature branch) or generic
+            let (x, y) = far(rng);
+            let l = 10f64.powf(rng.uniform(0.0, 2.0));
+            let (ax, ay) = (rng.uniform(-1.0, 1.0) * l, rng.uniform(-1.0, 1.0) * l);
+            let (bx, by) = (rng.uniform(-1.0, 1.0) * l, rng.uniform(-1.0, 1.0) * l);
+            let (cx, cy) = if rng.chance(2, 3) {
+                let w = rng.uniform(0.45, 0.55);
+                let h = rng.uniform(-2e-3, 2e-3);
+                (ax + (bx - ax) * w - (by - ay) * h, ay + (by - ay) * w + (bx - ax) * h)
+            } else {
+                (rng.uniform(-1.0, 1.0) * l, rng.uniform(-1.0, 1.0) * l)
+            };
+            pts[0] = pt(x + ax, y + ay);
+            pts[1] = pt(x + cx, y + cy);
+            pts[2] = pt(x + bx, y + by);
+            "far"
+        }
+        _ => {
+            // nearly closed: to within a hair of from (a cusp-like turn)
+            let h = if rng.chance(1, 3) { 0.0 } else { 10f64.powf(rng.uniform(-7.0, -2.0)) };
+            pts[2] = pt(pts[0].x.f() + rng.uniform(-1.0, 1.0) * h, pts[0].y.f() + rng.uniform(-1.0, 1.0) * h);
+            "closed"
+        }
+    }
+}
+
+/// Witness class of a quadratic for the `quad.length/*` clauses, computed from the control points
+/// only (first match wins): `point-curve` (from = ctrl = to), `underflow` (closed-form branch and
+/// `4 c a` below MIN_POSITIVE / machine epsilon: open finding C10-quad-length-underflow),
+/// `ctrl-near-to` (`a + b + c` cancels), `tiny-curve` (smaller than lyon's EPSILON),
+/// `collinear-far` / `far-from-origin` (extent small against the coordinates), `collinear`, `generic`.
+fn len_class<S: Fl>(s: &QuadraticBezierSegment<S>) -> &'static str {
+    let (f, c, t) = (s.from, s.ctrl, s.to);
+    let d1 = dist(c, f);
+    let d3 = dist(t, c);
+    let ch = dist(t, f);
+    let ext = d1.max(d3).max(ch);
+    let m = maxabs(&[f, c, t]);
+    let cross = ((c.x.f() - f.x.f()) * (t.y.f() - c.y.f()) - (c.y.f() - f.y.f()) * (t.x.f() - c.x.f())).abs();
+    // the closed form's `4 c a - b b` (fourth powers of the size of the curve) leaves the normal range
+    let d2 = ((f.x.f() - 2.0 * c.x.f() + t.x.f()).powi(2) + (f.y.f() - 2.0 * c.y.f() + t.y.f()).powi(2)).sqrt();
+    let min_pos = if S::BITS == 32 { f32::MIN_POSITIVE as f64 } else { f64::MIN_POSITIVE };
+    if ext == 0.0 {
+        "point-curve"
+    } else if d2 * d2 > 0.99e-4 * d1 * d1 && 4.0 * d1 * d1 * d2 * d2 < min_pos / S::EPS {
+        "underflow"
+    } else if d3 <= 1e-2 * d1 {
+        "ctrl-near-to"
+    } else if ext < lyon_epsilon::<S>() {
+        "tiny-curve"
+    } else if cross <= 1e-4 * d1 * d3 && ext <= 1e-1 * m {
+        "collinear-far"
+    } else if ext <= 1e-2 * m {
+        "far-from-origin"
+    } else if cross <= 1e-3 * d1 * d3 {
+        "collinear"
+    } else {
+        "generic"
+    }
+}
+
+/// reference arclength: 4096-step polyline of the curve in f64, evaluated on the control points
+/// relative to `from` (so that the reference itself does not lose digits far from the origin)
+fn quad_ref_len<S: Fl>(s: &QuadraticBezierSegment<S>) -> f64 {
+    let o = (s.from.x.f(), s.from.y.f());
+    let c = (s.ctrl.x.f() - o.0, s.ctrl.y.f() - o.1);
+    let t = (s.to.x.f() - o.0, s.to.y.f() - o.1);
+    let at = |u: f64| lerp64(lerp64((0.0, 0.0), c, u), lerp64(c, t, u), u);
+    let n = 4096;
+    let mut len = 0.0f64;
+    let mut prev = at(0.0);
+    for i in 1..=n {
+        let q = at(i as f64 / n as f64);
+        len += (q.0 - prev.0).hypot(q.1 - prev.1);
+        prev = q;
+    }
+    len
+}
+
+/// `QuadraticBezierSegment::length` of one curve: finite; not shorter than the chord; not longer
+/// than the control polygon; zero for a point; equal to the sampled reference.
+/// Allowance ("within rounding"): `rel` x control-polygon length (`2e-3` in f32: the closed form
+/// cancels up to (c/a)^(3/2) ~ 1e6 machine epsilons next to the quadrature threshold; `1e-4` in f64,
+/// which also covers the 3-point quadrature) + 4096 machine epsilons x coordinate magnitude
+/// (the differences `ctrl - from`, `from - 2 ctrl + to` are rounded at the magnitude of the coordinates).
+fn quad_length_one<S: Fl>(s: &QuadraticBezierSegment<S>, what: &str, class: &'static str, orc: &mut Oracle) {
+    let len = s.length().f();
+    let m = maxabs(&s.ctrl());
+    let chord = dist(s.to, s.from);
+    let poly = dist(s.ctrl, s.from) + dist(s.to, s.ctrl);
+    let rel = if S::BITS == 32 { 2e-3 } else { 1e-4 };
+    let tol = rel * poly + 4096.0 * S::EPS * m;
+    let show = || format!("{} from=({:e},{:e}) ctrl=({:e},{:e}) to=({:e},{:e})", what, s.from.x.f(), s.from.y.f(), s.ctrl.x.f(), s.ctrl.y.f(), s.to.x.f(), s.to.y.f());
+    if !(m.is_finite() && m < 1e15) {
+        return;
+    }
+    orc.check(len.is_finite(), "quad.length/finite", class, || format!("length()={} {}", len, show()));
+    if class == "point-curve" {
+        orc.check(len == 0.0, "quad.length/point", class, || format!("length()={} {}", len, show()));
+    }
+    orc.check(len >= chord - tol, "quad.length/chord-bound", class, || {
+        format!("length()={} chord={} tol={:e} {}", len, chord, tol, show())
+    });
+    orc.check(len <= poly + tol, "quad.length/polygon-bound", class, || {
+        format!("length()={} polygon={} tol={:e} {}", len, poly, tol, show())
+    });
+    let reflen = quad_ref_len(s);
+    orc.check((len - reflen).abs() <= tol, "quad.length/reference", class, || {
+        format!("length()={} sampled={} err={:e} tol={:e} {}", len, reflen, (len - reflen).abs(), tol, show())
+    });
+}
+
+/// The `quad.length/*` clauses for a curve and the two pieces of `split(t)`.
+fn quad_length_oracle<S: Fl>(
+    s: &QuadraticBezierSegment<S>,
+    l: &QuadraticBezierSegment<S>,
+    r: &QuadraticBezierSegment<S>,
+    t: f64,
+    orc: &mut Oracle,
+) {
+    let class = len_class(s);
+    quad_length_one(s, "whole", class, orc);
+    if !(0.0..=1.0).contains(&t) {
+        return;
+    }
+    // the pieces are curves in their own right (at t = 0 / t = 1 one of them is a point)
+    let ends = t == 0.0 || t == 1.0;
+    let piece_class = |q: &QuadraticBezierSegment<S>| {
+        let c = len_class(q);
+        if ends && c == "point-curve" {
+            "split-end-point"
+        } else {
+            c
+        }
+    };
+    quad_length_one(l, "left", piece_class(l), orc);
+    quad_length_one(r, "right", piece_class(r), orc);
+    // lengths of the pieces add up to the length of the whole; allowance: that of the reference clause,
+    // for the whole and for the parts
+    let whole = s.length().f();
+    let parts = l.length().f() + r.length().f();
+    let m = maxabs(&s.ctrl());
+    let poly = dist(s.ctrl, s.from) + dist(s.to, s.ctrl);
+    let rel = if S::BITS == 32 { 4e-3 } else { 2e-4 };
+    let tol = rel * poly + 3.0 * 4096.0 * S::EPS * m;
+    let e = (whole - parts).abs();
+    let add_class = if [class, len_class(l), len_class(r)].contains(&"underflow") {
+        "underflow"
+    } else if ends {
+        "split-end"
+    } else {
+        class
+    };
+    orc.check(e <= tol, "quad.length/additive", add_class, || {
+        format!("whole={} parts={} err={:e} tol={:e} t={}", whole, parts, e, tol, t)
+    });
+}
+
 fn quad_case<S: Fl>(ctx: &mut Ctx) {
     ctx.case(&format!("quad:{}", S::BITS), |rng| {
         let g = Gen::pick(rng);
-        let pts: Vec<Point<S>> = g.points(rng, 3);
+        let mut pts: Vec<Point<S>> = g.points(rng, 3);
+        let kind = if rng.chance(1, 4) { Some(len_kind::<S>(rng, &mut pts)) } else { None };
         let s = QuadraticBezierSegment { from: pts[0], ctrl: pts[1], to: pts[2] };
         let mut args = Out::new();
         put_ctrl(&mut args, &s);
         let p = gen_params::<S>(g, rng, &mut args);
         let tolr: S = len_tol(maxabs(&s.ctrl()).max(1e-30), &mut args);
-        let tag = format!("quad {} {}", S::BITS, g.name());
+        let tag = match kind {
+            Some(k) => format!("quad {} {} len-{}", S::BITS, g.name(), k),
+            None => format!("quad {} {}", S::BITS, g.name()),
+        };
         (args, tag, move || {
             let mut o = Out::new();
             o.t("sample").p(s.sample(p.t));
@@ -294,39 +545,9 @@ fn quad_case<S: Fl>(ctx: &mut Ctx) {
             let back = s.to_cubic().to_quadratic();
             let e = back.ctrl().iter().zip(&ctrl).map(|(x, y)| dist(*x, *y)).fold(0.0, f64::max);
             orc.check(e <= k * m * 4.0, "quad.to_cubic/to_quadratic", "generic", || format!("err={:e}", e));
-            // length agrees with the length of the sampled curve (independent reference: 2048-step polyline in f64)
-            if g != Gen::Wide {
-                let n = 2048;
-                let mut reflen = 0.0f64;
-                let mut prev = casteljau(&ctrl, 0.0);
-                for i in 1..=n {
-                    let q = casteljau(&ctrl, i as f64 / n as f64);
-                    reflen += ((q.0 - prev.0).powi(2) + (q.1 - prev.1).powi(2)).sqrt();
-                    prev = q;
-                }
-                let len = s.length().f();
-                let tol = if S::BITS == 32 { 2e-3 } else { 1e-4 } * (m + reflen);
-                orc.check(
-                    (len - reflen).abs() <= tol || !len.is_finite(),
-                    "quad.length/reference",
-                    "generic",
-                    || format!("length()={} sampled={} err={:e} tol={:e}", len, reflen, (len - reflen).abs(), tol),
-                );
-            }
-            // lengths of the pieces add up (closed-form length; t in [0,1])
-            let t = p.t.f();
-            if (0.0..=1.0).contains(&t) && g != Gen::Wide {
-                let whole = s.length().f();
-                let parts = l.length().f() + r.length().f();
-                let e = (whole - parts).abs();
-                let tol = if S::BITS == 32 { 2e-2 } else { 1e-6 } * (m + whole.abs());
-                orc.check(
-                    e <= tol || !whole.is_finite() || !parts.is_finite(),
-                    "quad.length/additive",
-                    "generic",
-                    || format!("whole={} parts={} err={:e} tol={:e}", whole, parts, e, tol),
-                );
-            }
+            // length(): finite, chord <= length <= control polygon, point -> 0, sampled reference,
+            // additive over split(t) — for every generator stream
+            quad_length_oracle(&s, &l, &r, p.t.f(), &mut orc);
             CaseOut { imp: o, orcl: orc.verdict }
         })
     });
